@@ -95,25 +95,43 @@ Definition shape_state (dims : list Z) (st : dst) : json * dst :=
   let (items, st1) := shape_items dims st0 in
   (node_state (K "tuple") (K "builtins") (K "TupleNode") [(K "content", JArr items)] tid, st1).
 
-(* get_state(obj.tolist()) for an object array: nested fresh lists around the cells (C order) *)
+(* closures: get_state of one object, waiting for the SaveContext *)
 Definition clo := dst -> res (json * dst).
-Fixpoint tolist_state (dims : list nat) (cs : list clo) (st : dst) : res (json * list clo * dst) :=
+
+(* one closure after the other *)
+Fixpoint run_all (cs : list clo) (st : dst) {struct cs} : res (list json * dst) :=
+  match cs with
+  | [] => Ok ([], st)
+  | c :: cs' => do (j, st1) <- c st; do (js, st2) <- run_all cs' st1; Ok (j :: js, st2)
+  end.
+
+(* d consecutive groups of k elements *)
+Fixpoint chunks {A} (k d : nat) (l : list A) {struct d} : list (list A) :=
+  match d with O => [] | S d' => firstn k l :: chunks k d' (skipn k l) end.
+Fixpoint nprod (l : list nat) : nat := match l with [] => 1%nat | x :: l' => (x * nprod l')%nat end.
+Fixpoint zprod (l : list Z) : Z := match l with [] => 1%Z | x :: l' => (x * zprod l')%Z end.
+
+(* an object array as the model represents it: no negative axis, as many cells (C order) as the shape says *)
+Definition shape_okb (shape : list Z) (ncells : nat) : bool :=
+  forallb (fun d => (0 <=? d)%Z) shape && Z.eqb (zprod shape) (Z.of_nat ncells).
+
+(* get_state(x) for x = a.tolist(), a a sub-array of shape dims with cells cs (C order): a fresh list per axis around
+   the states of the sub-arrays below it (a zero-length axis: an empty list); for no axis left, the cell itself *)
+Fixpoint tolist_state (dims : list nat) (cs : list clo) {struct dims} : clo :=
   match dims with
-  | [] => match cs with
-          | c :: cs' => do (j, st1) <- c st; Ok (j, cs', st1)
-          | [] => Raise EOther
-          end
-  | d :: dims' =>
+  | [] => match cs with [c] => c | _ => fun _ => Raise EDomain end
+  | d :: dims' => fun st =>
       let (lid, st0) := fresh st in
-      let fix rep (n : nat) (cs : list clo) (st : dst) : res (list json * list clo * dst) :=
-        match n with
-        | O => Ok ([], cs, st)
-        | S n' => do (j, cs1, st1) <- tolist_state dims' cs st;
-                  do (js, cs2, st2) <- rep n' cs1 st1;
-                  Ok (j :: js, cs2, st2)
-        end in
-      do (items, cs', st1) <- rep d cs st0;
-      Ok (list_state items lid, cs', st1)
+      do (items, st1) <- run_all (map (tolist_state dims') (chunks (nprod dims') d cs)) st0;
+      Ok (list_state items lid, st1)
+  end.
+
+(* the items of the list whose "content" ndarray_get_state keeps: obj.tolist() when obj.ndim >= 1, the one-element list
+   [obj.tolist()] around the cell when obj.ndim = 0 (the repair of C13-F1 / D10) *)
+Definition content_clos (dims : list nat) (cs : list clo) : list clo :=
+  match dims with
+  | [] => [tolist_state [] cs]
+  | d :: dims' => map (tolist_state dims') (chunks (nprod dims') d cs)
   end.
 
 (* the state-threading loops of the *_get_state functions, over an arbitrary element function *)
@@ -198,11 +216,13 @@ Fixpoint get_state (E : denv) (v : pval) (st : dst) {struct v} : res (json * dst
       Ok (node_state c m (K "NdArrayNode") [(K "type", JStr (K "numpy")); (K "file", JStr f)] id,
           if has_member f st then st else write_member f (MNpy, tok) st)
   | PObjArr id m c shape cells =>
-      do (ser, _, st1) <- tolist_state (map Z.to_nat shape) (closures cells) st;
-      do cont <- jindex ser (K "content");
-      let (sh, st2) := shape_state shape st1 in
-      Ok (node_state c m (K "NdArrayNode")
-            [(K "content", cont); (K "type", JStr (K "json")); (K "shape", sh)] id, st2)
+      if shape_okb shape (length cells) then
+        let (lid, st0) := fresh st in                       (* the list whose content is kept; its own state (and id) is dropped *)
+        do (items, st1) <- run_all (content_clos (map Z.to_nat shape) (closures cells)) st0;
+        let (sh, st2) := shape_state shape st1 in
+        Ok (node_state c m (K "NdArrayNode")
+              [(K "content", JArr items); (K "type", JStr (K "json")); (K "shape", sh)] id, st2)
+      else Raise EDomain                                    (* not an array: outside the model *)
   | PMasked id m c data mask =>
       do (jd, st1) <- get_state E data st;
       do (jm, st2) <- get_state E mask st1;
